@@ -318,13 +318,59 @@ Qed.
 
 (* class 8 (C12-F8, what remains of F5): .text = None on a fresh instance leaves xsi:type="" without nil marker; an
    empty type NAME is not a declared type, parsing marks the element nil *)
-(* C12-F10: set_type("xs:anyType"); set_text(None) keeps None as the text member; parsing delivers "" *)
-Lemma anytype_none_refuted :
-  exists xa, av_build (Recipe VNone [] [] [OSetType "xs:anyType"; OSetText VNone]) = TOk xa None
+(* C12-F10 (FIXED): BEFORE the repair set_text(None) under xs:anyType kept None as the text member (av_set_text_f10v0);
+   such an instance is in class 10, serialises like the empty value and comes back with the text "" *)
+Lemma anytype_none_v0_refuted :
+  exists xa, av_set_text_f10v0 VNone (av_set_type "xs:anyType" av_init_xattrs) = TOk xa None
              /\ av_known_class [] xa None = 10
              /\ o_text (harvest b_table 0%N (ser b_table (av_obj 0%N [] xa None))) = Some ""%string
              /\ ser b_table (harvest b_table 0%N (ser b_table (av_obj 0%N [] xa None))) = ser b_table (av_obj 0%N [] xa None).
 Proof. eexists. split; [vm_compute; reflexivity|]. split; [vm_compute; reflexivity|]. split; vm_compute; reflexivity. Qed.
+
+(* ... the same recipe on the code as it is now stores the text "": the typed empty value (class 5, itself repaired:
+   C12-F5), which survives the round trip *)
+Lemma anytype_none_now :
+  exists xa, av_build (Recipe VNone [] [] [OSetType "xs:anyType"; OSetText VNone]) = TOk xa (Some ""%string)
+             /\ av_known_class [] xa (Some ""%string) = 5
+             /\ harvest b_table 0%N (ser b_table (av_obj 0%N [] xa (Some ""%string))) = av_obj 0%N [] xa (Some ""%string).
+Proof. eexists. split; [vm_compute; reflexivity|]. split; vm_compute; reflexivity. Qed.
+
+(* since the repair NO call of set_text, hence no constructor call and no sequence of public calls, leaves None in the
+   text member: class 10 is empty on the building side (for ALL values, attribute dicts, recipes) *)
+Lemma set_text_some v xa xa' tx : av_set_text v xa = TOk xa' tx -> tx <> None.
+Proof.
+  unfold av_set_text. destruct (if is_empty _ then _ else split_type _) as [ns ty].
+  destruct (negb (type_ok _)); [discriminate|].
+  destruct (norm_v v) eqn:Ev.
+  all: try (destruct (String.eqb ty "anyType"); [intros H; inversion H; discriminate|]).
+  all: try (destruct (negb (pty_eqb _ _)); [discriminate|]).
+  all: try (destruct (av_convert ty _); try discriminate).
+  all: intros H; inversion H; discriminate.
+Qed.
+
+Lemma av_ops_text_some ops : forall xa tx xa' tx',
+  tx <> None -> av_ops ops xa tx = TOk xa' tx' -> tx' <> None.
+Proof.
+  induction ops as [|o r IH]; intros xa tx xa' tx' Htx H; cbn [av_ops] in H.
+  - inversion H; subst; exact Htx.
+  - destruct o as [v|t| |k w].
+    + destruct (av_set_text v xa) as [xa1 tx1| | |] eqn:E; try discriminate.
+      eapply IH; [|exact H]. eapply set_text_some; exact E.
+    + eapply IH; [exact Htx|exact H].
+    + eapply IH; [exact Htx|exact H].
+    + eapply IH; [exact Htx|exact H].
+Qed.
+
+Lemma av_build_text_some b xa tx : av_build b = TOk xa tx -> tx <> None.
+Proof.
+  unfold av_build. destruct (av_ctor (r_text b) (r_ext b) (r_arg b)) as [xa0 tx0| | |] eqn:E; try discriminate.
+  apply av_ops_text_some. unfold av_ctor in E. destruct (truthy _).
+  - eapply set_text_some; exact E.
+  - destruct (nonempty _); inversion E; discriminate.
+Qed.
+
+Lemma av_build_not_class10 b xa tx : av_build b = TOk xa tx -> av_text_none tx = false.
+Proof. intros H. apply av_build_text_some in H. destruct tx; [reflexivity|congruence]. Qed.
 
 (* ... and no document at all is parsed into an AttributeValue whose text member is None *)
 Lemma av_parse_text_some T c ci t :
